@@ -23,7 +23,7 @@
 (***************************************************************************)
 EXTENDS RingQ, Sequences, FiniteSets, FiniteSetsExt, Json, TLC
 
-CONSTANT NN          \* matrix size (2 or 3)
+CONSTANT NN          \* matrix size (2, 3 or 4; with 4 the two decoupled diagonal entries are equal: a degenerate pair)
 
 B == INSTANCE DualB WITH
         SAdd <- QAdd, SSub <- QSub, SMul <- QMul, SDiv <- QDiv, SNeg <- QNeg, SRecip <- QInv,
